@@ -2,6 +2,7 @@ package p64
 
 import (
 	"fmt"
+	"sort"
 	"strings"
 	"testing"
 
@@ -346,6 +347,39 @@ func pool64(t *rapid.T, prop string, structural bool) {
 			derived[[2]int{z.id, x.id}] = true
 			log("#%d=Clone(#%d)", z.id, x.id)
 		},
+		"cowClone": func(t *rapid.T) {
+			x := pick(t, "x")
+			x.b.SetCopyOnWrite(true)
+			z := add(x.b.Clone(), x.m.Clone())
+			derived[[2]int{z.id, x.id}] = true
+			log("#%d.SetCopyOnWrite(true); #%d=Clone(#%d)", x.id, z.id, x.id)
+		},
+		"dropBuckets": func(t *rapid.T) {
+			// a range removal that deletes whole leading buckets and ends inside / at the edge of a later one
+			x := pick(t, "x")
+			bk := bucketsOf(x.m)
+			if len(bk) < 2 {
+				t.Skip("needs two buckets")
+			}
+			var keys []uint64
+			for k := range bk {
+				keys = append(keys, k)
+			}
+			sortU64(keys)
+			i := rapid.IntRange(0, len(keys)-2).Draw(t, "from")
+			j := rapid.IntRange(i+1, len(keys)-1).Draw(t, "to")
+			s := keys[i] << 32
+			if rapid.Bool().Draw(t, "fromZero") {
+				s = 0
+			}
+			e := keys[j]<<32 + uint64(rapid.SampledFrom([]int{0, 1, 65536}).Draw(t, "into"))
+			log("#%d.RemoveRange(%d,%d)", x.id, s, e)
+			x.b.RemoveRange(s, e)
+			if e > s {
+				x.m.RemoveRange(s, e-1)
+			}
+			noteRange(s, e)
+		},
 		"SetCopyOnWrite": func(t *rapid.T) {
 			x := pick(t, "x")
 			v := rapid.Bool().Draw(t, "on")
@@ -542,3 +576,7 @@ func queries64(t *rapid.T, x *m64, fail func(string, ...interface{})) {
 
 func TestC17(t *testing.T)    { rapid.Check(t, func(t *rapid.T) { pool64(t, "C17", false) }) }
 func TestC07x64(t *testing.T) { rapid.Check(t, func(t *rapid.T) { pool64(t, "C07", true) }) }
+
+func sortU64(a []uint64) {
+	sort.Slice(a, func(i, j int) bool { return a[i] < a[j] })
+}
